@@ -26,7 +26,7 @@ SystemsOf(f) ==
     [] f = "kb3" -> SysKBOf(A33, Vec(3, 0), Vec(3, 4), {k \in KVariants(3) : k[3] = 1})   \* magnitude guard (32-bit Gram determinants)
     [] f = "unb" -> {DefaultB(A) : A \in {A22, A23, A33, A32, A21, A12}} \cup UNION {SysUnbOf(A) : A \in {A22, A23}}
                     \cup SysKBOf(A22, Vec(2, 0), Vec(2, INF), KVariants(2))
-    [] f = "over" -> UNION {SysBoundsOf(A) : A \in {A32, A21, A31}}
+    [] f = "over" -> UNION {SysBoundsOf(A) : A \in {A32, A21, A31}} \cup {Plain(<<<<1>>, <<3>>>>, 4, <<0>>, <<40>>), Plain(<<<<2>>, <<1>>>>, 4, <<1>>, <<40>>)}     \* wide bounds (ub = 10)
     [] f = "one" -> UNION {SysBoundsOf(A) : A \in {A11, A12, A13}}
 
 Weights(d) == IF d = 1 THEN {<<1>>, <<2>>}
@@ -41,13 +41,18 @@ Level2 == /\ pc = "fam"
           /\ pc' = "sys" /\ key' = key
 (* W = "inverse" (weights 1/b per sample and receptor): marker w = <<0,..>>; only targets whose entries are in  *)
 (* {1,2,4,8} lattice units, so that 8/b is an integer weight proportional to 1/b; 1-2 receptors (magnitude).     *)
+(* targets whose residual in one receptor exceeds 25 capture units while another receptor can still be served (the *)
+(* regime allows targets up to 100): over-determined systems only, where the receptors compete for the sources       *)
+VeryFar(s, fam) ==
+  IF fam # "over" \/ Len(s.A) # 2 \/ s.DK # 1 THEN {}
+  ELSE {<<80 * s.D, 3 * s.D>>, <<3 * s.D, 90 * s.D>>, <<60 * s.D, 40 * s.D>>}
 InvTargets(s) == {b \in Targets(s, 8, Span) : \A i \in 1..Len(b) : b[i] \in {1, 2, 4, 8}}
 InvW(b) == [i \in 1..Len(b) |-> 8 \div b[i]]
 Level3 == /\ pc = "sys"
           /\ out' = [fam |-> out.fam, sys |-> out.sys, w |-> out.w,
                      fits |-> IF out.w = Vec(Len(out.sys.A), 0)
                               THEN {FitRecord(out.sys, InvW(b), b, Span) : b \in InvTargets(out.sys)}
-                              ELSE {FitRecord(out.sys, out.w, b, Span) : b \in Targets(out.sys, G, Span)}]
+                              ELSE {FitRecord(out.sys, out.w, b, Span) : b \in Targets(out.sys, G, Span) \cup VeryFar(out.sys, out.fam)}]
           /\ pc' = "done" /\ key' = key
 Next == Level1 \/ Level2 \/ Level3
 Spec == Init /\ [][Next]_vars
